@@ -73,6 +73,9 @@ package core
 //@ callreq send d.deadlineChan: a1 == currDuty
 //@ callreq send d.deadlineChan: forallk(x, duties, res(1, deadlineFunc(x)) ==> !res(0, deadlineFunc(x)).Before(currDeadline))
 //@ callreq send d.deadlineChan: currDeadline == time.Date(9999, 1, 1, 0, 0, 0, 0, time.UTC) || (has(duties, currDuty) && currDeadline == res(0, deadlineFunc(currDuty)))
+// The run loop is the only goroutine that answers Add, and dutydb.Store calls Add under its lock before it drains C(): the
+// loop must never wait for its consumer, so the send to the output channel is a select case next to a default clause.
+//@ callreq send d.deadlineChan: nonblocking
 //@ callreq delete: a2 == currDuty
 //@ callreq send input.success: (a1 == DeadlineExempt) == !canExpire
 //@ callreq send input.success: a1 == DeadlineExpired ==> canExpire
